@@ -25,3 +25,9 @@ package ast
 //@   props C13
 //@   nosafety
 //@   modifies *
+//@ func (*MapLiteralNode).sortedKeys
+//@   props C13
+//@   nosafety
+//@   modifies *
+//@   loop 0
+//@     bag keys
